@@ -173,6 +173,8 @@ def entries():
 
     add("NaiveLinear/64", "transform", naive64, (lambda n, g: 0.05 * torch.randn(n, 64, generator=g)), flags={"inv", "linear", "ctor_random", "noperturb", "large"}, y=(lambda n, g: 0.01 * torch.randn(n, 64, generator=g)))
     add("OneByOneConvolution", "transform", lambda: TR.OneByOneConvolution(3, identity_init=False), _rn(3, 2, 3), flags={"inv", "image", "linear", "ctor_random"})
+    # the cached route of the 1x1 convolution on a non-square image: one log|det W| per pixel in either direction
+    add("OneByOneConvolution/cached", "transform", lambda: TR.OneByOneConvolution(3, using_cache=True, identity_init=False), _rn(3, 3, 5), flags={"inv", "image", "linear", "ctor_random"})
     add("HouseholderSequence", "transform", lambda: TR.HouseholderSequence(3, 3), _rn(3), flags={"inv", "linear"})
     # ---- structure
     add("RandomPermutation", "transform", lambda: TR.RandomPermutation(5), _rn(5), flags={"inv", "ctor_random", "noparams"})
